@@ -172,13 +172,111 @@ def ob_transport_config(report):
                                                                                                                            'EndpointConfig::client_config_with_expected_server_identity'], {}, body)
 
 
+def ob_transport_limits(report):
+    """a configured stream/window limit reaches the QUIC transport as min(n, 2^62-1): a value beyond the varint range means "as large as possible",
+    never a small number (a zero window or zero stream budget leaves a listed peer that no RPC can reach)"""
+    LIM = 1 << 62
+    NAMES = ('max_concurrent_bidi_streams', 'max_concurrent_uni_streams', 'stream_receive_window', 'receive_window')
+
+    def body(ob):
+        def setter(name):
+            def m(ex, p, call, k):
+                p.events.append(Event('transport-set', name, (call.args[1],)))
+                k(p, call.args[0])
+            return m
+
+        def m_try_from(ex, p, call, k):
+            n = call.args[0]
+            if not (isinstance(n, z3.ExprRef) and z3.is_bv(n) and n.size() == 64):
+                return k(p, Sym(f'varint_try_from{p.seq("vtf")}', 'Result<VarInt, VarIntBoundsExceeded>'))
+            q = p.clone()
+            p.pc.append(z3.ULT(n, z3.BitVecVal(LIM, 64)))
+            k(p, MD.ok(n))
+            q.pc.append(z3.UGE(n, z3.BitVecVal(LIM, 64)))
+            k(q, MD.err(Sym('bounds_exceeded', 'VarIntBoundsExceeded')))
+
+        def m_from_u32(ex, p, call, k):
+            n = call.args[0]
+            k(p, z3.ZeroExt(32, n) if isinstance(n, z3.ExprRef) and z3.is_bv(n) and n.size() == 32 else n)
+        models = [(rf'TransportConfig::{n}$', setter(n)) for n in NAMES]
+        models += [(r'VarInt as TryFrom>::try_from$', m_try_from), (r'VarInt as Default>::default$', lambda ex, p, call, k: k(p, z3.BitVecVal(0, 64))),
+                   (r'VarInt::from_u32$|VarInt as From>::from$', m_from_u32), (r'VarInt::from_u64$', m_try_from),
+                   (r'VarInt::into_inner$', lambda ex, p, call, k: k(p, call.args[0]))]
+        ex = e2.executor('anemo', models, max_depth=3)
+        fn = find_method(ex.prog, 'QuicConfig', 'transport_config')
+        qf = struct_fields('crates/anemo/src/config.rs', 'QuicConfig')
+        missing = [n for n in NAMES if n not in qf]
+        if missing:
+            return ob.done([ex], 'inconclusive', f'QuicConfig has no field(s) {missing}: the limits are configured differently', paths=0)
+        p0 = Path()
+        for i, f_ in enumerate(qf):
+            if f_ not in NAMES:         # the other settings are not the subject here: left unset
+                p0.pc.append(z3.BitVec(f'qc.{i}.discr', 64) == 0)
+        res = ex.run(fn, [Ptr(('H', 'qc', 'QuicConfig'))], p0)
+
+        def val(v):
+            if isinstance(v, Const) and re.search(r'VarInt::MAX$', v.text.strip()):
+                return z3.BitVecVal(LIM - 1, 64)
+            if isinstance(v, z3.ExprRef) and z3.is_bv(v) and v.size() == 64:
+                return v
+            return None
+        n_ok, unknown = 0, None
+        for r in res:
+            if r.tag != 'return':
+                if r.tag in ('panic', 'diverge'):
+                    return viol(ob, [ex], 'QuicConfig::transport_config can panic on a configured value', 'transport-limit-panic', path_summary(r), len(res))
+                continue
+            sets = {}
+            for e in r.events:
+                if e.kind == 'transport-set':
+                    sets.setdefault(e.name, []).append(e)
+            dom = [z3.ULT(z3.BitVec(f'qc.{qf.index(n)}.discr', 64), 2) for n in NAMES]
+            if not ex.feasible(r.pc + dom):
+                continue
+            for name in NAMES:
+                i = qf.index(name)
+                d, x = z3.BitVec(f'qc.{i}.discr', 64), z3.BitVec(f'qc.{i}@Some.0', 64)
+                ex.queries += 1
+                configured = e2.solve(r.pc + dom + [d != 1], want_model=False)[0] == 'unsat'
+                es = sets.get(name, [])
+                if not configured:
+                    if es and e2.solve(r.pc + dom + [d == 1], want_model=False)[0] == 'unsat':
+                        unknown = unknown or f'{name} is set although not configured'
+                    continue
+                if len(es) != 1:
+                    return viol(ob, [ex], f'a configured {name} is applied {len(es)} times to the QUIC transport (expected once)', f'transport-limit-applied:{name}', path_summary(r), len(res))
+                v = val(es[0].args[0])
+                if v is None:
+                    unknown = unknown or f'{name}: applied value {vrepr(es[0].args[0])[:60]} not understood'
+                    continue
+                want = z3.If(z3.ULT(x, z3.BitVecVal(LIM, 64)), x, z3.BitVecVal(LIM - 1, 64))
+                ex.queries += 1
+                q, m, _ = e2.solve(r.pc + dom + [v != want])
+                if q != 'unsat':
+                    cex = m.eval(x, model_completion=True).as_long() if m is not None else None
+                    got = m.eval(v, model_completion=True).as_long() if m is not None else None
+                    sample = path_summary(r)
+                    sample['counterexample'] = {name: cex, 'applied': got, 'expected': min(cex, LIM - 1) if cex is not None else None}
+                    return viol(ob, [ex], f'{name} = {cex} is applied to the transport as {got}, not min(n, 2^62-1) = {min(cex, LIM - 1) if cex is not None else "?"}: '
+                                'a limit beyond the varint range must saturate ("unlimited"), not collapse', f'transport-limit-value:{name}', sample, len(res))
+                n_ok += 1
+        if unknown:
+            return ob.done([ex], 'inconclusive', unknown, paths=len(res))
+        if not n_ok:
+            return ob.done([ex], 'inconclusive', 'no path applies a configured limit', paths=len(res))
+        ob.done([ex], 'held', '', {'paths': len(res), 'limit_checks': n_ok}, paths=len(res))
+    return guarded(report, 'transport_limits_saturate', 'QuicConfig::transport_config: each configured stream/window limit n (all 2^64 values) is applied exactly once as min(n, 2^62-1)',
+                   ['QuicConfig::transport_config'], {'values': 'all u64', 'VarInt::try_from': 'exact contract: Ok(n) iff n < 2^62'}, body)
+
+
 def check(report, tier, only=None):
     report.trusted += ['quinn: idle timeout / keep-alive detect silent loss; close is observed by the remote', 'std RwLock / HashMap contracts', 'z3 5.1']
     report.outside += ['eventual mutuality of the two views and loss detection within the idle timeout (QUIC timers, network)', 'histories of partitions and healing']
-    obs = [('disconnect', ob_disconnect), ('remove_transition', C04.ob_remove), ('add_transition', C04.ob_add), ('reason', ob_reason_mapping), ('idle_timeout', ob_transport_config),
+    obs = [('disconnect', ob_disconnect), ('remove_transition', C04.ob_remove), ('add_transition', C04.ob_add), ('reason', ob_reason_mapping), ('idle_timeout', ob_transport_config), ('transport_limits', ob_transport_limits),
            ('handler_exit', lambda rep: handler.ob_handler_tail(rep, PROP)), ('connection_end', C12.ob_tail_aborts_tasks),
            # a listed connection always has the handler whose exit delists it (without one a closed connection stays listed for ever)
            ('add_peer_wiring', lambda rep: handler.ob_add_peer(rep, PROP)),
+           ('handler_failure', lambda rep: handler.ob_handler_failure_not_ignored(rep, PROP)),
            # an entry leaves the set only through its own handler's exit, a replacement, or an explicit disconnect
            ('removal_entry_points', C04.ob_removal_entry_points), ('lock_bracketing', C04.ob_wrappers)]
     for n, f in obs:
